@@ -234,6 +234,10 @@ func parseInto(result *Version, input string) error {
 		result.Version = result.Version[:hyphen]
 	}
 
+	if len(result.Version) == 0 {
+		return fmt.Errorf("version number is empty")
+	}
+
 	if len(result.Version) > 0 && !unicode.IsDigit(rune(result.Version[0])) {
 		return fmt.Errorf("version number does not start with digit")
 	}
